@@ -159,6 +159,49 @@ func (e *Engine) intercept(fn *ssa.Function, args []Value) (Value, bool) {
 			return tb.FP(math.Pow(x.fval, y.fval)), true
 		}
 		e.unmodelled("math.Pow on symbolic arguments")
+	// ---- math/bits
+	case "math/bits.Len64", "math/bits.Len", "math/bits.Len32":
+		e.stub(key)
+		x := args[0].(*Term)
+		w := 64
+		if key == "math/bits.Len32" {
+			w = 32
+		}
+		if x.IsConst() {
+			return e.intConst(64, int64(x.val.BitLen())), true
+		}
+		// bit length = number of thresholds 2^k (k = 0..w-1) that x reaches
+		res := e.intConst(64, 0)
+		for k := w - 1; k >= 0; k-- {
+			thr := e.intConstBig(w, false, pow2(k))
+			var ge *Term
+			if e.intMode {
+				ge = tb.ICmp("<=", thr, x)
+			} else {
+				ge = tb.BVCmp("bvule", thr, x)
+			}
+			_ = ge
+		}
+		// build as nested ite from the top threshold down
+		res = e.intConst(64, 0)
+		for k := 0; k < w; k++ {
+			thr := e.intConstBig(w, false, pow2(k))
+			var ge *Term
+			if e.intMode {
+				ge = tb.ICmp("<=", thr, x)
+			} else {
+				ge = tb.BVCmp("bvule", thr, x)
+			}
+			res = tb.Ite(ge, e.intConst(64, int64(k+1)), res)
+		}
+		return res, true
+	case "math/bits.LeadingZeros64":
+		e.stub(key)
+		x := args[0].(*Term)
+		if x.IsConst() {
+			return e.intConst(64, int64(64-x.val.BitLen())), true
+		}
+		e.unmodelled("bits.LeadingZeros64 on a symbolic value")
 	// ---- sort
 	case "sort.SliceStable", "sort.Slice":
 		e.stub(key)
